@@ -200,18 +200,10 @@ func engineNames(f *rep.Flags, res *rep.Result) {
 			cases = append(cases, cs{ix, nm})
 		}
 	}
-	fail := func(sig, m string, a ...any) {
-		res.Add(f.Prop+"|names|"+sig, fmt.Sprintf(m, a...), map[string]any{"signature": sig})
-	}
-	const batch = 40
-	for start := 0; start < len(cases); start += batch {
-		if (start/batch)%f.NShards != f.Shard {
-			continue
-		}
-		end := start + batch
-		if end > len(cases) {
-			end = len(cases)
-		}
+	type fnd struct{ sig, msg string }
+	runBatch := func(start, end int, count bool) []fnd {
+		var out []fnd
+		fail := func(sig, m string, a ...any) { out = append(out, fnd{f.Prop + "|names|" + sig, fmt.Sprintf(m, a...)}) }
 		rt, err := full.NewRuntime()
 		if err != nil {
 			rep.Fatal(f, "%v", err)
@@ -219,6 +211,7 @@ func engineNames(f *rep.Flags, res *rep.Result) {
 		if err := rt.Start(); err != nil {
 			rep.Fatal(f, "%v", err)
 		}
+		defer rt.Close()
 		var ps []*rawPlugin
 		for _, c := range cases[start:end] {
 			p := &rawPlugin{name: c.name, idx: c.idx}
@@ -230,23 +223,21 @@ func engineNames(f *rep.Flags, res *rep.Result) {
 		// a good plugin after all of them: must still get in
 		good := &rawPlugin{name: "good", idx: "99"}
 		good.connect(rt.Sock)
-		if !waitFor(20*time.Second, func() bool { return isActive(rt, "99-good") }) {
-			fail("blocks-later-plugins", "a well-formed plugin connecting after %d others (indices like %q) was not synchronized within 20 s", len(ps), cases[start].idx)
+		if !waitFor(30*time.Second, func() bool { return isActive(rt, "99-good") }) {
+			fail("blocks-later-plugins", "a well-formed plugin connecting after %d others (indices like %q) was not synchronized within 30 s", len(ps), cases[start].idx)
 		}
 		if err := rt.R.StartContainer(context.Background(), evtC17); err != nil {
 			fail("event-error", "event failed: %v", err)
 		}
 		time.Sleep(5 * time.Millisecond)
-		active := map[string]bool{}
-		for _, n := range adaptation.VerifActiveNames(rt.R) {
-			active[n] = true
-		}
 		for i, p := range ps {
 			c := cases[start+i]
 			_, syncs, events := p.counts()
 			want := c.name != "" && validIdx(c.idx)
-			res.Evaluations++
-			res.Transitions++
+			if count {
+				res.Evaluations++
+				res.Transitions++
+			}
 			got := syncs > 0 || events > 0
 			if want && !(syncs == 1 && events == 1) {
 				fail("valid-not-activated", "plugin with name %q index %q: synchronized %d times, %d events (expected activation)", short(c.name), c.idx, syncs, events)
@@ -264,7 +255,38 @@ func engineNames(f *rep.Flags, res *rep.Result) {
 			fail("blocks-later-plugins", "the well-formed plugin after the batch was synchronized %d times and got %d events", s, e)
 		}
 		good.close()
-		rt.Close()
+		return out
+	}
+	const batch = 40
+	for start := 0; start < len(cases); start += batch {
+		if (start/batch)%f.NShards != f.Shard {
+			continue
+		}
+		end := start + batch
+		if end > len(cases) {
+			end = len(cases)
+		}
+		fs := runBatch(start, end, true)
+		// a finding is believed only if it recurs in two further executions of the same batch
+		for try := 0; try < 2 && len(fs) > 0; try++ {
+			time.Sleep(300 * time.Millisecond)
+			again := map[string]bool{}
+			for _, x := range runBatch(start, end, false) {
+				again[x.sig] = true
+			}
+			var keep []fnd
+			for _, x := range fs {
+				if again[x.sig] {
+					keep = append(keep, x)
+				} else {
+					res.Notes = append(res.Notes, "not reproduced on re-execution (load/timing): "+x.msg)
+				}
+			}
+			fs = keep
+		}
+		for _, x := range fs {
+			res.Add(x.sig, x.msg, map[string]any{"signature": x.sig})
+		}
 		res.States++
 	}
 	res.Distinct = res.Evaluations
@@ -375,10 +397,65 @@ func engineMasksC17(f *rep.Flags, res *rep.Result) {
 
 // ---- stalls ---------------------------------------------------------------
 
-func engineStalls(f *rep.Flags, res *rep.Result) {
-	const to = 200 * time.Millisecond
+// runStallVector runs one vector of misbehaving plugins ahead of a good one with the given timeouts.
+func runStallVector(prop string, vec []string, to time.Duration) (out [][2]string) {
+	fail := func(sig, m string, a ...any) {
+		out = append(out, [2]string{prop + "|stalls|" + sig, fmt.Sprintf(m, a...)})
+	}
 	adaptation.SetPluginRegistrationTimeout(to)
 	adaptation.SetPluginRequestTimeout(to)
+	rt, err := full.NewRuntime()
+	if err != nil {
+		return nil
+	}
+	rt.Start()
+	defer rt.Close()
+	var bad []*rawPlugin
+	for i, k := range vec {
+		p := &rawPlugin{name: fmt.Sprintf("bad%d", i), idx: fmt.Sprintf("%02d", i+1), behave: k, delay: 3 * to}
+		switch k {
+		case "bad-mask":
+			p.mask = 1 << 20
+		case "bad-index":
+			p.idx = "5"
+		case "empty-name":
+			p.name = ""
+		}
+		p.connect(rt.Sock)
+		bad = append(bad, p)
+	}
+	good := &rawPlugin{name: "good", idx: "50"}
+	good.connect(rt.Sock)
+	horizon := time.Duration(len(vec)+1)*4*to + 10*time.Second
+	ok := waitFor(horizon, func() bool { return isActive(rt, "50-good") })
+	if !ok {
+		fail("blocks-later-plugins|"+strings.Join(vec, "+"), "with stalled plugins %v ahead, a good plugin was not active within %v", vec, horizon)
+	} else {
+		// the stalled plugins have been dealt with: the event round trip itself is not under test here
+		adaptation.SetPluginRequestTimeout(10 * time.Second)
+		rt.R.StartContainer(context.Background(), evtC17)
+		time.Sleep(5 * time.Millisecond)
+		if _, _, e := good.counts(); e != 1 {
+			fail("good-no-events", "the good plugin behind %v received %d events", vec, e)
+		}
+	}
+	for i, p := range bad {
+		_, s, e := p.counts()
+		// a plugin that registers correctly and then drops its connection is a well-formed
+		// registration (it may or may not be synchronized before the drop is noticed)
+		dropper := strings.HasPrefix(vec[i], "close-after-")
+		if !dropper && (s > 0 || e > 0) {
+			fail("bad-activated|"+vec[i], "plugin misbehaving as %q was synchronized %d times and received %d events", vec[i], s, e)
+		}
+		close(p.hang)
+		p.close()
+	}
+	good.close()
+	return out
+}
+
+func engineStalls(f *rep.Flags, res *rep.Result) {
+	const to = 200 * time.Millisecond
 	kinds := []string{"never-register", "late-register", "no-configure-answer", "bad-mask", "close-after-register", "close-after-configure", "bad-index", "empty-name"}
 	var vectors [][]string
 	vectors = append(vectors, nil)
@@ -388,81 +465,38 @@ func engineStalls(f *rep.Flags, res *rep.Result) {
 			vectors = append(vectors, []string{a, b})
 		}
 	}
-	fail := func(sig, m string, a ...any) {
-		res.Add(f.Prop+"|stalls|"+sig, fmt.Sprintf(m, a...), map[string]any{"signature": sig})
-	}
-	var mu sync.Mutex
-	var wg sync.WaitGroup
-	jobs := make(chan []string, 8)
-	for w := 0; w < 8; w++ {
-		wg.Add(1)
-		go func() {
-			defer wg.Done()
-			for vec := range jobs {
-				rt, err := full.NewRuntime()
-				if err != nil {
-					continue
-				}
-				rt.Start()
-				var bad []*rawPlugin
-				for i, k := range vec {
-					p := &rawPlugin{name: fmt.Sprintf("bad%d", i), idx: fmt.Sprintf("%02d", i+1), behave: k, delay: 3 * to}
-					switch k {
-					case "bad-mask":
-						p.mask = 1 << 20
-					case "bad-index":
-						p.idx = "5"
-					case "empty-name":
-						p.name = ""
-					}
-					p.connect(rt.Sock)
-					bad = append(bad, p)
-				}
-				good := &rawPlugin{name: "good", idx: "50"}
-				good.connect(rt.Sock)
-				horizon := time.Duration(len(vec)+1)*4*to + 8*time.Second
-				ok := waitFor(horizon, func() bool { return isActive(rt, "50-good") })
-				mu.Lock()
-				res.Evaluations++
-				res.Transitions += int64(len(vec) + 1)
-				if !ok {
-					fail("blocks-later-plugins|"+strings.Join(vec, "+"), "with stalled plugins %v ahead, a good plugin was not active within %v", vec, horizon)
-				}
-				mu.Unlock()
-				if ok {
-					rt.R.StartContainer(context.Background(), evtC17)
-					time.Sleep(5 * time.Millisecond)
-					if _, _, e := good.counts(); e != 1 {
-						mu.Lock()
-						fail("good-no-events", "the good plugin behind %v received %d events", vec, e)
-						mu.Unlock()
-					}
-				}
-				for i, p := range bad {
-					_, s, e := p.counts()
-					// a plugin that registers correctly and then drops its connection is a well-formed
-					// registration (it may or may not be synchronized before the drop is noticed)
-					dropper := strings.HasPrefix(vec[i], "close-after-")
-					if !dropper && (s > 0 || e > 0) {
-						mu.Lock()
-						fail("bad-activated|"+vec[i], "plugin misbehaving as %q was synchronized %d times and received %d events", vec[i], s, e)
-						mu.Unlock()
-					}
-					close(p.hang)
-					p.close()
-				}
-				good.close()
-				rt.Close()
+	// the timeouts are process-global: one vector at a time per worker process (parallelism comes from shards)
+	for i, vec := range vectors {
+		if i%f.NShards != f.Shard {
+			continue
+		}
+		fs := runStallVector(f.Prop, vec, to)
+		res.Evaluations++
+		res.Transitions += int64(len(vec) + 1)
+		// believed only if it recurs with more generous timeouts (rules out load)
+		for _, t2 := range []time.Duration{2 * to, 4 * to} {
+			if len(fs) == 0 {
+				break
 			}
-		}()
-	}
-	for i, v := range vectors {
-		if i%f.NShards == f.Shard {
-			jobs <- v
+			time.Sleep(200 * time.Millisecond)
+			again := map[string]bool{}
+			for _, x := range runStallVector(f.Prop, vec, t2) {
+				again[x[0]] = true
+			}
+			var keep [][2]string
+			for _, x := range fs {
+				if again[x[0]] {
+					keep = append(keep, x)
+				} else {
+					res.Notes = append(res.Notes, "not reproduced with longer timeouts (load/timing): "+x[1])
+				}
+			}
+			fs = keep
+		}
+		for _, x := range fs {
+			res.Add(x[0], x[1], map[string]any{"vector": vec})
 		}
 	}
-	close(jobs)
-	wg.Wait()
 	res.States = res.Evaluations
 	res.Distinct = res.Evaluations
 	res.Bounds["stall_kinds"] = kinds
